@@ -24,6 +24,8 @@ func c10(c *core.Check) {
 		"the optional-skip guards of the two are textually identical; the field header is append(b, <spec wire type>, idHi, idLo); the wire-event tree FastRead consumes (ReadI32, ReadString, ReadListBegin + loop, FastRead of a struct, …) equals the tree FastAppend produces. " +
 		"(3) the same byte-count rule on the 21 checked-in generated structs of parser/k-AST.go and plugin/k-protocol.go (whole BLength vs whole FastAppend). " +
 		"(4) genFastRead registers every required field in the bitset (Add), sets its bit in the field's case (GenSetbit) and tests the set after the loop (GenIfNotSet), and skips unknown ids in the default arm. " +
+		"(5) GenIfNotSet visits every registered element: a loop-coverage argument read off the code (counter starts at 0, advances only by the post `c++` of a loop whose body first reports element m[c], and every exit follows a failed `c < g.i`). " +
+		"(6) no fastgo function reads Type.KeyType/ValueType (nil for a typedef of a container) except the tabled nil-guarded shortcut; element types come from the resolved sub-contexts. " +
 		"NOT decided: behaviour on truncated/corrupt input (implemented in cloudwego/gopkg), equality with the standard codec's bytes."
 	c.RuleText = "one obligation per (rule, emitter family) over all interpreted shapes, per checked-in struct, per bitset pairing"
 	c.Assume = []string{"cloudwego/gopkg Append*/Read* helpers write/read the sizes their names say", "the Go-subset interpreter is faithful on the emitters (it fails closed on anything outside the subset)"}
